@@ -233,6 +233,46 @@ let () =
            if starts_with what "neighbour" then report_spec ~prop:"C13" ~pred:"neighbours_untouched" ~detail:what
            else if starts_with what "final_drop_mismatch" then report_spec ~prop:"C15" ~pred:"final_drop_exact" ~detail:what
            else report_spec ~prop:"C16" ~pred:"no_double_drop" ~detail:what
+         | 'G' ->
+           (* C19 grid: G entry esize ealign len0 count | bump_res bump_cap | std_res *)
+           let secs = List.map String.trim (String.split_on_char '|' line) in
+           (match split_ws (List.nth secs 0), split_ws (List.nth secs 1), String.trim (List.nth secs 2) with
+            | [_; entry; es; ea; len0; cnt], [bres; bcap], sres ->
+              hid := "grid"; opno := 0; header := ""; cur := String.concat " " [entry; es; ea; len0; cnt];
+              bump_count "grid_cases";
+              let bclass = bres in
+              (* against std *)
+              if sres <> "skip" then begin
+                let norm r = if starts_with r "panic:" then "panic" else r in
+                if norm bclass <> norm sres then report_spec ~prop:"C19" ~pred:("grid_like_std_" ^ entry ^ "_es" ^ es) ~detail:(bres ^ "_vs_std_" ^ sres)
+              end;
+              (* the capacity claimed must cover what was asked for *)
+              if bres = "ok" && Z.lt (Z.of_string bcap) (Z.add (Z.of_string len0) (Z.of_string cnt)) then
+                report_spec ~prop:"C19" ~pred:("grid_capacity_covers_" ^ entry ^ "_es" ^ es) ~detail:(bcap ^ "_lt_" ^ len0 ^ "+" ^ cnt);
+              (* against the model (element size > 0) *)
+              if es <> "0" then begin
+                let e = { e_size = n_of_string es; e_align = n_of_string ea } in
+                let l0 = int_of_string len0 in
+                let v0 = (* a vector of len0 elements built by pushes *)
+                  List.fold_left (fun acc i -> match acc with Ret v -> push e v (n_of_z (Z.of_int i)) | p -> p)
+                    (Ret { v_buf = []; v_len = N0 }) (List.init l0 (fun i -> i)) in
+                let expect =
+                  match entry, v0 with
+                  | "with_capacity", _ -> (match vwith_capacity e (n_of_string cnt) with Ret _ -> "ok" | Panic PCapacity -> "panic:capacity" | Panic _ -> "panic:oom")
+                  | ("reserve" | "reserve_exact"), Ret v -> (match reserve e v (n_of_string cnt) (entry = "reserve_exact") with Ret _ -> "ok" | Panic PCapacity -> "panic:capacity" | Panic _ -> "panic:oom")
+                  | _, Ret v -> (match try_reserve e v (n_of_string cnt) (entry = "try_reserve_exact") with Inl _ -> "ok" | Inr CapacityOverflow -> "err:capacity" | Inr AllocErr -> "err:alloc")
+                  | _, Panic _ -> "?" in
+                if expect <> bclass then report_mismatch ~field:("grid_" ^ entry) ~model:expect ~impl:bres
+              end
+            | _ -> ())
+         | 'Z' ->
+           let secs = List.map String.trim (String.split_on_char '|' line) in
+           (match secs with
+            | [name; b; st] ->
+              hid := "boundary"; opno := 0; header := ""; cur := name; bump_count "boundary_cases";
+              let norm r = if starts_with r "ok" then r else "panic" in
+              if norm b <> norm st then report_spec ~prop:"C19" ~pred:"boundary_like_std" ~detail:(b ^ "_vs_std_" ^ st)
+            | _ -> ())
          | 'E' ->
            incr histories;
            if !feat || !opno > 6 then Hashtbl.replace nontrivial (Hashtbl.hash (Buffer.contents sigb)) ();
